@@ -39,6 +39,21 @@ class ListE:
         return ListE(self.items)
 
 
+class IterE(ListE):
+    """An ITERATOR object (iter(x), zip, map, filter, reversed, enumerate, a generator, a generator expression), evaluated
+    eagerly (A3) to the items it has yet to produce.  Unlike a list it is ONE-SHOT: next() and `for` take items away from
+    the front (a loop left by `break` leaves the rest), a full traversal exhausts it (`done`)."""
+
+    kind = "list"
+
+    def __init__(self, items, done=False):
+        ListE.__init__(self, items)
+        self.done = done
+
+    def copy(self):
+        return IterE(self.items, self.done)
+
+
 class DequeE(ListE):
     kind = "deque"
 
